@@ -134,7 +134,8 @@ def to_sheets(form):
         head = list(st)
         for i, h in enumerate(form.get("settings_header_extra", [])):
             head.insert(0 if i % 2 == 0 else len(head), h)
-        sheets["settings"] = (head, [{} for _ in range(form.get("settings_blank_rows", 0))] + [dict(st)])
+        # settings_rows_extra: further rows below the settings row (only the first row with content is used)
+        sheets["settings"] = (head, [{} for _ in range(form.get("settings_blank_rows", 0))] + [dict(st)] + [dict(r) for r in form.get("settings_rows_extra", [])])
     elif form.get("settings_header_only"):
         # the sheet exists and has its header row, nothing is filled in yet
         sheets["settings"] = (list(form["settings_header_only"]), [])
